@@ -38,6 +38,22 @@ Theorem C06_transparent :
 Proof. exact transparent. Qed.
 Print Assumptions C06_transparent.
 
+(* with ONLY THE NEEDED DEFINITIONS (C06 + the frame theorem of C07): inG is the family of classes the
+   operation needs (closed under nested / base / instance classes, sharing no nested class and no
+   qualname with the rest of the history) *)
+Theorem C06_transparent_needed :
+  forall inG h o, op_in inG o = true ->
+  disjoint_tables inG (h ++ [o]) = true ->
+  safe_history (h ++ [o]) = true -> safe_history (proj inG (h ++ [o])) = true ->
+  snd (step (run init h) o) = snd (step (run init (defs_all (proj inG h))) o).
+Proof. exact transparent_needed. Qed.
+Print Assumptions C06_transparent_needed.
+Example C06_needed_example :
+  op_in g_frame (last h_frame o_safe) = true /\
+  disjoint_tables g_frame h_frame = true /\ safe_history h_frame = true /\ safe_history (proj g_frame h_frame) = true.
+Proof. exact needed_example. Qed.
+Print Assumptions C06_needed_example.
+
 (* ... and both equal the cache-free outcome computed from the declarations alone *)
 Theorem C06_pure_outcome :
   forall h o, safe_history (h ++ [o]) = true -> is_def o = false ->
